@@ -345,16 +345,46 @@ OP_DEFECTS = [
 ]
 
 POSITIONS = {
-    "struct": "module M\nstruct Before {{}}\n{doc}struct Host {{ a: bool }}\nstruct After {{}}\n",
-    "field": "module M\nstruct Host {{ before: bool,\n{doc}a: bool,\nafter: bool }}\n",
-    "interface": "module M\ncustom Before\n{doc}interface Host {{ op() }}\ncustom After\n",
-    "operation": "module M\ninterface Host {{ before()\n{doc}hostop(p: bool)\nafter() }}\n",
-    "enum": "module M\n{doc}enum Host {{ A }}\nstruct After {{}}\n",
-    "enumerator": "module M\nenum Host {{ Before,\n{doc}A,\nAfter }}\n",
-    "custom": "module M\n{doc}custom Host\ncustom After\n",
-    "alias": "module M\n{doc}typealias Host = bool\ncustom After\n",
-    "enumerator-field": "module M\nenum Host {{ X(before: bool,\n{doc}a: bool,\nafter: bool) }}\n",
+    # the siblings before and after the defective comment carry well-formed comments of their own, which must survive
+    "struct": "module M\n/// doc of Before\nstruct Before {{}}\n{doc}struct Host {{ a: bool }}\n/// doc of After, see {{@link Host}}\n/// @see Before\nstruct After {{}}\n",
+    "field": "module M\nstruct Host {{\n/// doc of before\nbefore: bool,\n{doc}a: bool,\n/// doc of after {{@link Host::before}}\nafter: bool }}\n/// doc of Later\ncustom Later\n",
+    "interface": "module M\n/// doc of Before\ncustom Before\n{doc}interface Host {{\n/// doc of op\nop() }}\n/// doc of After\ncustom After\n",
+    "operation": "module M\ninterface Host {{\n/// doc of before\nbefore()\n{doc}hostop(p: bool)\n/// doc of after\n/// @param q: the q {{@link Host}}\nafter(q: bool) }}\n/// doc of Later\nstruct Later {{}}\n",
+    "enum": "module M\n{doc}enum Host {{\n/// doc of A\nA }}\n/// doc of After\nstruct After {{}}\n",
+    "enumerator": "module M\nenum Host {{\n/// doc of Before\nBefore,\n{doc}A,\n/// doc of After\nAfter }}\n/// doc of Later\ncustom Later\n",
+    "custom": "module M\n{doc}custom Host\n/// doc of After\ncustom After\n",
+    "alias": "module M\n/// doc of Before\ncustom Before\n{doc}typealias Host = bool\n/// doc of After\ncustom After\n",
+    "enumerator-field": "module M\nenum Host {{ X(\n/// doc of before\nbefore: bool,\n{doc}a: bool,\n/// doc of after\nafter: bool) }}\n/// doc of Later\ncustom Later\n",
 }
+TARGET = {"struct": "M::Host", "field": "M::Host::a", "interface": "M::Host", "operation": "M::Host::hostop", "enum": "M::Host",
+          "enumerator": "M::Host::A", "custom": "M::Host", "alias": "M::Host", "enumerator-field": "M::Host::X::a"}
+
+
+def comments_of(files, skip):
+    """{scoped identifier: comment without locations} of every element but the one that carries the defective comment."""
+    out = {}
+
+    def walk(d):
+        if isinstance(d, dict):
+            if "psid" in d and "comment" in d and d["psid"] != skip:
+                out[d["psid"] + "/" + d.get("kind", "?")] = strip_spans_only(d["comment"])
+            for v in d.values():
+                walk(v)
+        elif isinstance(d, list):
+            for v in d:
+                walk(v)
+    walk(files)
+    return out
+
+
+def strip_spans_only(x):
+    if isinstance(x, dict):
+        return {k: strip_spans_only(v) for k, v in x.items() if k not in ("span", "id_span", "at", "value_span", "other")}
+    if isinstance(x, list):
+        return [strip_spans_only(v) for v in x]
+    return x
+
+
 OP_SHAPES = {"void": "hostop(p: bool)", "single": "hostop(p: bool) -> bool", "tuple": "hostop(p: bool) -> (a: bool, b: bool)"}
 
 SPAN_KEYS = {"span", "id_span", "at", "value_span", "other", "comment"}
@@ -412,6 +442,16 @@ def run_defects(ctx, spec):
             continue
         if json.dumps(strip(r["files"]), sort_keys=True) != json.dumps(strip(rp["files"]), sort_keys=True):
             ctx.violate("comment-defect-costs-elements:" + name, "defect '%s' on %s changes the element or its siblings (comment apart)" % (name, pos), replay)
+            continue
+        # the doc comments of every other element - before and after the defective one - are what they are without it
+        target = TARGET[pos.split("-")[0] if pos.startswith("operation-") else pos]
+        ca, cb = comments_of(r["files"], target), comments_of(rp["files"], target)
+        ctx.stats["sibling_comments_compared"] += len(cb)
+        if ca != cb:
+            lost = sorted(k for k in cb if ca.get(k) != cb[k])
+            replay["comments_changed"] = lost[:5]
+            ctx.violate("comment-defect-costs-other-comments:" + name, "defect '%s' on %s changes the doc comments of other elements: %s"
+                        % (name, pos, lost[:4]), replay)
             continue
     ctx.sample({"family": "defects", "example": cases[3][2]}, limit=1)
 
